@@ -10,17 +10,24 @@ what `Solver::decide` can produce —
   rejection of a solvable named as a soft requirement (reason 0), or
 * a positive assignment of a candidate `v` whose reason is a `requires p r` clause such that the
   parent `p` is true, no candidate of the clause is true, every candidate listed before `v` is
-  false (so `v` is the first undecided one), and the clause lists its candidates in the order of
+  false (so `v` is the first undecided one), the clause lists its candidates in the order of
   `SolverCache::get_or_cache_sorted_candidates` (`reqSorted`: union members in listed order, each
-  sorted by the provider with the favored candidate rotated to the front).
+  sorted by the provider with the favored candidate rotated to the front), and — explicit-first —
+  if `p` is not the root, every requirement of the root has been encoded and has a true candidate.
 
-`Abs/Preferred.lean` proves what an accepted history then establishes for C07.
+`Abs/Preferred.lean` proves what an accepted history then establishes for C07, `Abs/BestDirect.lean` for C08.
 -/
 namespace Resolvo.Abs
 open Resolvo Resolvo.Sat
 
 /-- the candidate variables of a `requires` clause, in recorded order -/
 def candVars (cl : ACl) : List Nat := (cl.lits.drop 1).map (·.1)
+
+/-- every root requirement has been encoded and has a candidate that is true (`decide` prefers requirements of the
+    root over all others: a requirement of another solvable is only decided on when this holds) -/
+def rootSatB (P : Problem) (st : St) : Bool :=
+  P.reqs.all (fun r => st.db.any (fun cl => cl.kind == .requires 0 r &&
+    (candVars cl).any (fun w => st.valueOf w == some true)))
 
 def decisionOK (U : Universe) (P : Problem) (st : St) (v : Nat) (val : Bool) (reason : Nat) : Bool :=
   if reason == 0 then
@@ -37,7 +44,8 @@ def decisionOK (U : Universe) (P : Problem) (st : St) (v : Nat) (val : Bool) (re
           vars.contains v &&
           vars.all (fun w => st.valueOf w != some true) &&
           (vars.takeWhile (fun w => w != v)).all (fun w => st.valueOf w == some false) &&
-          vars.filterMap st.solvOf == reqSorted U r
+          vars.filterMap st.solvOf == reqSorted U r &&
+          (p == 0 || rootSatB P st)
         | _ => false)
      | none => false)
 
